@@ -300,7 +300,13 @@ def make_inputs(spec, case):
 def run_path(spec, case, decisions, concrete=None):
     reset_names()
     path = Path(decisions)
-    I = Interp(path, spec.config())
+    cfg = spec.config()
+    if concrete is not None:
+        # cross-check mode: the real bodies are executed (no invariant cuts, no callee contracts)
+        cfg = dict(cfg)
+        cfg.pop("loop_invs", None)
+        cfg["overrides"] = cfg.get("concrete_overrides", {})
+    I = Interp(path, cfg)
     I.spec = spec
     res = PathResult()
     res.decisions = list(decisions)
@@ -398,7 +404,9 @@ def discharge_all(work, jobs=None):
     _WORK = work
     if not work:
         return []
-    jobs = jobs or int(os.environ.get("VERIF_JOBS", "0")) or min(16, os.cpu_count() or 4)
+    jobs = jobs or int(os.environ.get("VERIF_JOBS_INNER", "0")) or int(os.environ.get("VERIF_JOBS", "0")) or min(16, os.cpu_count() or 4)
+    if multiprocessing.current_process().daemon:
+        jobs = 1
     if jobs == 1 or len(work) == 1:
         return [_discharge_one(i) for i in range(len(work))]
     ctx = multiprocessing.get_context("fork")
